@@ -64,3 +64,12 @@ Theorem C16_sort_sorted :
 Proof. exact @pure_sort_sorted. Qed.
 Print Assumptions C16_sort_sorted.
 
+(** the same for every sequence that passes the boolean discipline test the harness evaluates (extracted): the test implies the discipline; combine may pair an array, even a bin, with itself *)
+Theorem C16_heap_refines_pure_b :
+  forall (A : Type) (valueof : A -> Z) (ops : list op),
+  disciplined_run_b valueof [] ops = true ->
+  forall (h : nat) (k : bool) (b : bins A),
+  plive (pure_run valueof ops) h = Some (k, b) -> abs (run valueof ops) h = Some b.
+Proof. exact @heap_refines_pure_b. Qed.
+Print Assumptions C16_heap_refines_pure_b.
+
